@@ -27,7 +27,8 @@ E == D \cup F
 
 BaseSeq     == << <<>>, <<"tmp">>, <<"tmp", "a">> >>
 CwdSeq      == BaseSeq
-MountSetSeq == << {<<>>}, {<<"tmp">>}, {<<"tmp", "a">>}, {<<"tmp">>, <<"tmp", "a">>}, {<<"a">>, <<"ab">>} >>
+MountSetSeq == << {<<>>}, {<<"tmp">>}, {<<"tmp", "a">>}, {<<"tmp">>, <<"tmp", "a">>}, {<<"a">>, <<"ab">>},
+                 {<<>>, <<"tmp">>}, {<<>>, <<"tmp", "a">>, <<"a">>} >>
 ASSUME Range(BaseSeq) = Bases /\ Range(CwdSeq) = Cwds /\ Range(MountSetSeq) = MountSets
 
 VARIABLE i
